@@ -25,7 +25,12 @@ THEOREMS = ["Mistune.m_sound", "Mistune.spec_bounds", "Mistune.matchAt_sound", "
             # induction on the nesting budget: no loop of the block / inline model ever stalls, for every source string; the hypotheses are decidable obligations on the
             # regenerated tables, discharged for every configuration by the kernel (allCfgs_cfgOk, allCfgs_iCfgOk)
             "Mistune.Model.Blk.parseMethod_progress", "Mistune.Model.blockParse_no_noProgress", "Mistune.allCfgs_cfgOk", "Mistune.allCfgs_blockParse_no_noProgress",
-            "Mistune.Model.Inl.recAt_ok", "Mistune.Model.inlineParse_no_noProgress", "Mistune.Model.inlineParseEnv_no_noProgress", "Mistune.allCfgs_iCfgOk", "Mistune.allCfgs_inlineParse_no_noProgress"]
+            "Mistune.Model.Inl.recAt_ok", "Mistune.Model.inlineParse_no_noProgress", "Mistune.Model.inlineParseEnv_no_noProgress", "Mistune.allCfgs_iCfgOk", "Mistune.allCfgs_inlineParse_no_noProgress",
+            # document level: the whole pipeline of Markdown.parse as modelled (hooks, block pass, both second passes, footnotes hook) never stalls: for the 21 regenerated
+            # configurations without the abbr plugin with no hypothesis at all, for the 9 with it under `no empty abbreviation key in the block pass's env` (_partial; the
+            # regex-level half -- every match of the regenerated ref_abbr rule captures a non-empty key -- is proved and kernel-checked: abbrKey_nonempty, allCfgs_abbrRuleOk)
+            "Mistune.Model.parseDoc_no_noProgress", "Mistune.Model.parseDoc_no_noProgress_partial", "Mistune.allCfgs_docCfgOk", "Mistune.allCfgs_parseDoc_no_noProgress",
+            "Mistune.Model.allCfgs_abbrRuleOk", "Mistune.Model.abbrKey_nonempty"]
 
 BLOCK_OPEN = ["> ", "- ", "1. ", "* ", "+ ", ">! ", "> - ", "- > ", "1. > ", "> 1. ", "- - > ", ">\t", "-\t", "  - ", "   > "]
 INLINE_OPEN = [("[![", "](u)](u)"), ("![[", "](u)](u)"), ("[a ![b ", "](u)](v)"), ("*", "*"), ("**", "**"), ("_", "_"), ("[", "](u)"), ("![", "](u)"), ("<a>", "</a>"), ("[</a>", "](u)"),
